@@ -469,3 +469,88 @@ def inline_new_helpers(module, reference_names: set) -> list:
         ExprInline(fi).visit(fi.node)
         process_block(fi.node.body, fi, [])
     return done
+
+
+# ---------------------------------------------------------------------------------------------------------------------
+# Assignment expressions in the two positions where they replace the statement idiom exactly:
+#   if (z := E) <cmp> …:  BODY            ==>   z = E
+#                                               if z <cmp> …:  BODY
+#   while (z := E) <cmp> …:  BODY         ==>   while True:
+#                                                   z = E
+#                                                   if not (z <cmp> …): break
+#                                                   BODY
+# (the named expression must be what the test evaluates first: the test itself, the operand of `not`, or the left
+# operand of a comparison; a `while` with an `else` clause is left alone)
+
+
+def _leftmost_walrus(test):
+    """(NamedExpr node, replace function) when the first thing the test evaluates is `name := expr`"""
+    t = test
+    parent = None
+    fld = None
+    while True:
+        if isinstance(t, ast.NamedExpr) and isinstance(t.target, ast.Name):
+            return t, parent, fld
+        if isinstance(t, ast.UnaryOp) and isinstance(t.op, ast.Not):
+            parent, fld, t = t, 'operand', t.operand
+            continue
+        if isinstance(t, ast.Compare):
+            parent, fld, t = t, 'left', t.left
+            continue
+        return None
+
+
+_NEG = {ast.Is: ast.IsNot, ast.IsNot: ast.Is, ast.Eq: ast.NotEq, ast.NotEq: ast.Eq, ast.In: ast.NotIn, ast.NotIn: ast.In}
+
+
+def _negate(test):
+    """the negation of a test, written the way a person would: `z is None` for `not (z is not None)`"""
+    if isinstance(test, ast.UnaryOp) and isinstance(test.op, ast.Not):
+        return test.operand
+    if isinstance(test, ast.Compare) and len(test.ops) == 1 and type(test.ops[0]) in _NEG:
+        return ast.copy_location(ast.Compare(left=test.left, ops=[_NEG[type(test.ops[0])]()], comparators=test.comparators), test)
+    return ast.copy_location(ast.UnaryOp(op=ast.Not(), operand=test), test)
+
+
+def desugar_walrus(tree: ast.AST) -> int:
+    n = 0
+
+    def rewrite(block):
+        nonlocal n
+        i = 0
+        while i < len(block):
+            st = block[i]
+            if isinstance(st, (ast.If, ast.While)):
+                got = _leftmost_walrus(st.test)
+                if got is not None and not (isinstance(st, ast.While) and st.orelse):
+                    ne, parent, fld = got
+                    name = ast.copy_location(ast.Name(id=ne.target.id, ctx=ast.Load()), ne)
+                    asg = ast.copy_location(ast.Assign(targets=[ast.Name(id=ne.target.id, ctx=ast.Store())], value=ne.value, type_comment=None), st)
+                    ast.fix_missing_locations(asg)
+                    if parent is None:
+                        new_test = name
+                    else:
+                        setattr(parent, fld, name)
+                        new_test = st.test
+                    if isinstance(st, ast.If):
+                        st.test = new_test
+                        block.insert(i, asg)
+                        i += 1
+                    else:
+                        brk = ast.copy_location(ast.If(test=_negate(new_test), body=[ast.copy_location(ast.Break(), st)], orelse=[]), st)
+                        ast.fix_missing_locations(brk)
+                        st.test = ast.copy_location(ast.Constant(value=True), st)
+                        st.body = [asg, brk] + st.body
+                    n += 1
+            for fld_ in ('body', 'orelse', 'finalbody'):
+                blk = getattr(st, fld_, None)
+                if isinstance(blk, list) and blk and isinstance(blk[0], ast.stmt):
+                    rewrite(blk)
+            for h in getattr(st, 'handlers', []) or []:
+                rewrite(h.body)
+            i += 1
+
+    for node in ast.walk(tree):
+        if isinstance(node, ast.Module):
+            rewrite(node.body)
+    return n
